@@ -7,7 +7,9 @@ package metric
 // errors and returns them together with the collected data; header "<cycle>:<D|C>:e" = Collect returned an error).
 // gen tags ending in "+fresh" collect into a fresh ResourceMetrics each time; all others reuse ONE ResourceMetrics
 // per reader across all collections (what PeriodicReader's pool and most ManualReader users do).
-// insts: comma list of <i|f><kind><agg><cb>; kind c,u,h,g (sync) C,U,G (observable); agg - s l e x d; cb 0|1.
+// insts: comma list of <i|f><kind><agg><cb>[n]; kind c,u,h,g (sync) C,U,G (observable); agg - s l e x d; cb 0|1;
+// optional 5th char n = the view's explicit / exponential histogram aggregation has NoMinMax.
+// histogram and exponential-histogram streams carry a 5th field: per point "<min>~<max>" or "-" (Min/Max absent).
 // slots: comma list of digit strings (instrument indexes of one RegisterCallback), "-" = none.
 // record: "<cycle>:<D|C>;<stream>;…", stream = "<j>:<type>:<start>.<time>.<p>.<f>.<le>.<uni>:<points>".
 // Time stamps are never printed: start/time are classified by the window (creation `c`, collection `w<k>` of the
@@ -37,6 +39,7 @@ type c08Inst struct {
 	kind  byte
 	sel   byte
 	cb    bool
+	nomm  bool
 }
 
 type c08Obs struct {
@@ -83,6 +86,19 @@ type c08Pt struct {
 	a           int
 	s           string
 	start, time time.Time
+	mm          string // histograms: "<min>~<max>", "-" when both are absent, "?" when only one is
+}
+
+func c08MM[N int64 | float64](mn, mx metricdata.Extrema[N]) string {
+	a, okA := mn.Value()
+	b, okB := mx.Value()
+	switch {
+	case okA && okB:
+		return c08Num(a) + "~" + c08Num(b)
+	case !okA && !okB:
+		return "-"
+	}
+	return "?"
 }
 
 func c08Temp(t metricdata.Temporality) string {
@@ -111,23 +127,23 @@ func c08Points[N int64 | float64](d metricdata.Aggregation) (string, []c08Pt, bo
 	switch x := d.(type) {
 	case metricdata.Sum[N]:
 		for _, p := range x.DataPoints {
-			pts = append(pts, c08Pt{c08SetID(p.Attributes), c08Num(p.Value), p.StartTime, p.Time})
+			pts = append(pts, c08Pt{c08SetID(p.Attributes), c08Num(p.Value), p.StartTime, p.Time, ""})
 		}
 		return "S" + c08Temp(x.Temporality) + map[bool]string{true: "m", false: "n"}[x.IsMonotonic], pts, true
 	case metricdata.Gauge[N]:
 		for _, p := range x.DataPoints {
-			pts = append(pts, c08Pt{c08SetID(p.Attributes), c08Num(p.Value), p.StartTime, p.Time})
+			pts = append(pts, c08Pt{c08SetID(p.Attributes), c08Num(p.Value), p.StartTime, p.Time, ""})
 		}
 		return "G", pts, true
 	case metricdata.Histogram[N]:
 		for _, p := range x.DataPoints {
-			pts = append(pts, c08Pt{c08SetID(p.Attributes), fmt.Sprintf("%d/%s/%s", p.Count, c08Num(p.Sum), c08U(p.BucketCounts)), p.StartTime, p.Time})
+			pts = append(pts, c08Pt{c08SetID(p.Attributes), fmt.Sprintf("%d/%s/%s", p.Count, c08Num(p.Sum), c08U(p.BucketCounts)), p.StartTime, p.Time, c08MM(p.Min, p.Max)})
 		}
 		return "H" + c08Temp(x.Temporality), pts, true
 	case metricdata.ExponentialHistogram[N]:
 		for _, p := range x.DataPoints {
 			pts = append(pts, c08Pt{c08SetID(p.Attributes), fmt.Sprintf("%d/%s/%d.%d.%d", p.Count, c08Num(p.Sum),
-				c08Tot(p.NegativeBucket.Counts), p.ZeroCount, c08Tot(p.PositiveBucket.Counts)), p.StartTime, p.Time})
+				c08Tot(p.NegativeBucket.Counts), p.ZeroCount, c08Tot(p.PositiveBucket.Counts)), p.StartTime, p.Time, c08MM(p.Min, p.Max)})
 		}
 		return "X" + c08Temp(x.Temporality), pts, true
 	}
@@ -173,9 +189,9 @@ func TestVerifC08Twin(t *testing.T) {
 			case 'l':
 				agg = AggregationLastValue{}
 			case 'e':
-				agg = AggregationExplicitBucketHistogram{Boundaries: []float64{0, 10, 100}}
+				agg = AggregationExplicitBucketHistogram{Boundaries: []float64{0, 10, 100}, NoMinMax: ic.nomm}
 			case 'x':
-				agg = AggregationBase2ExponentialHistogram{MaxSize: 160, MaxScale: 20}
+				agg = AggregationBase2ExponentialHistogram{MaxSize: 160, MaxScale: 20, NoMinMax: ic.nomm}
 			case 'd':
 				agg = AggregationDrop{}
 			}
@@ -343,12 +359,17 @@ func TestVerifC08Twin(t *testing.T) {
 					}
 					sort.SliceStable(pts, func(a, b int) bool { return pts[a].a < pts[b].a })
 					uni := "1"
-					var ps []string
+					var ps, mms []string
 					for _, p := range pts {
 						if !p.start.Equal(pts[0].start) || !p.time.Equal(pts[0].time) {
 							uni = "0"
 						}
 						ps = append(ps, fmt.Sprintf("%d=%s", p.a, p.s))
+						mms = append(mms, p.mm)
+					}
+					mmField := ""
+					if ty[0] == 'H' || ty[0] == 'X' {
+						mmField = ":" + strings.Join(mms, ",")
 					}
 					st, tm := pts[0].start, pts[0].time
 					p, f := "-", "-"
@@ -360,7 +381,7 @@ func TestVerifC08Twin(t *testing.T) {
 					}
 					le := map[bool]string{true: "1", false: "0"}[!st.After(tm)]
 					rd.prev[j] = c08Prev{cycle, st, tm}
-					streams = append(streams, fmt.Sprintf("%d:%s:%s.%s.%s.%s.%s.%s:%s", j, ty, class(st), class(tm), p, f, le, uni, strings.Join(ps, ",")))
+					streams = append(streams, fmt.Sprintf("%d:%s:%s.%s.%s.%s.%s.%s:%s%s", j, ty, class(st), class(tm), p, f, le, uni, strings.Join(ps, ","), mmField))
 				}
 			}
 			sort.Strings(streams)
@@ -421,7 +442,7 @@ func TestVerifC08Twin(t *testing.T) {
 	parse := func(istr, sstr string) ([]c08Inst, [][]int) {
 		var insts []c08Inst
 		for _, s := range strings.Split(istr, ",") {
-			insts = append(insts, c08Inst{float: s[0] == 'f', kind: s[1], sel: s[2], cb: s[3] == '1'})
+			insts = append(insts, c08Inst{float: s[0] == 'f', kind: s[1], sel: s[2], cb: s[3] == '1', nomm: len(s) > 4 && s[4] == 'n'})
 		}
 		var slots [][]int
 		if sstr != "-" {
@@ -498,7 +519,11 @@ func TestVerifC08Twin(t *testing.T) {
 					cb = "1"
 				}
 			}
-			is = append(is, string([]byte{"if"[r.Intn(2)], kind, sel}) + cb)
+			nomm := ""
+			if (sel == 'e' || sel == 'x') && r.Intn(3) == 0 {
+				nomm = "n" // NoMinMax: Min/Max must be absent, also in recycled destination points
+			}
+			is = append(is, string([]byte{"if"[r.Intn(2)], kind, sel})+cb+nomm)
 		}
 		var ss []string
 		ns := r.Intn(4)
